@@ -18,6 +18,10 @@ func VerifC12_OpenSessionAlgorithms() {
 	password := vBytes(20)
 	bmc := &refBMC{password: password, sidC: vU32(), rC: vBytes(16), guid: vBytes(16),
 		rspAuth: int(vByte() & 0x3f), rspInteg: int(vByte() & 0x3f), rspConf: int(vByte() & 0x3f)}
+	if vBool() {
+		// some of the three payloads come in the zero-length (wildcard) form
+		bmc.rspZeroLen = 1 + vByte()%7
+	}
 	ft.reply = func(attempt int, req []byte) ([]byte, error) {
 		return bmc.handle(req), nil
 	}
@@ -29,6 +33,7 @@ func VerifC12_OpenSessionAlgorithms() {
 	sess, err := s.NewV2Session(context.Background(), opts)
 	if err == nil {
 		vReached("session")
+		vAssert(bmc.rspZeroLen == 0, "c12-session-only-if-every-algorithm-is-named-in-the-response")
 		vAssert(bmc.rspAuth == auth, "c12-session-only-with-the-proposed-authentication-algorithm")
 		vAssert(bmc.rspInteg == integ, "c12-session-only-with-the-proposed-integrity-algorithm")
 		vAssert(bmc.rspConf == 1, "c12-session-only-with-the-proposed-confidentiality-algorithm")
